@@ -88,6 +88,10 @@ def doc_cases(rng, n, prefix, delims=None, kinds=None, p_unwrap=0.3, p_mut=0.15,
                                                    rng.choice([("x", "feature1"), ("x",), ()])))
         dg = G.DocGen(rng, ds, de, cfg, safe_text=safe)
         dg.strict_unwrap = strict_unwrap
+        dg.multiline_open = 0.08
+        if not strict_unwrap:
+            dg.tagline_inline = 0.08
+            dg.multiline_close = 0.04
         s = dg.document(kinds or G.ALL_KINDS, p_unwrap)
         mutated = rng.random() < p_mut
         if mutated:
@@ -889,7 +893,7 @@ def gen_c09(rng, tier):
 
 def gen_c10(rng, tier):
     cases, meta = [], {}
-    atoms = ["<a>", "<b>", "</a>", "</b>", "</z>", "t", "<//a>", "<a k='v'>"]
+    atoms = ["<a>", "<b>", "</a>", "</b>", "</z>", "t", "<//a>", "<a k='v'>", "<a\r\n>", "</a\r\n>", "<a\r\n k='v'>", "<b\r>", "</b\r>"]
     L = 5 if tier == "quick" else 7
     import itertools
     k = 0
@@ -1021,6 +1025,16 @@ def gen_c05(rng, tier):
         cid = f"p{i}"
         cases.append(G.dcase(cid, "<", ">", src, G.Cfg(offset="+00:00", now=G.NOW)))
         meta[cid] = {"stream": "probe", "expect": "ab" if want else src, "why": "probe"}
+    # two attributes named `to`: the first one decides, also when it has no value
+    for j, (attrs, ready) in enumerate([('to to="2001-09-09 01:46:39"', False), ('to=2099-12-31 to="2001-09-09 01:46:39"', False),
+                                        ('to="2100-01-01 00:00:00" to="2001-09-09 01:46:39"', False),
+                                        ('to="2001-09-09 01:46:39" to="2100-01-01 00:00:00"', True), ('to="2001-09-09 01:46:39" to', True),
+                                        ('to\n to=\'2001-09-09 01:46:39\'', False), ('To="2001-09-09 01:46:39"', False),
+                                        ('c="to" to="2001-09-09 01:46:39"', True)]):
+        src = f'a<tl {attrs}>x</tl>b'
+        cid = f"dup{j}"
+        cases.append(G.dcase(cid, "<", ">", src, G.Cfg(offset="+00:00", now=G.NOW)))
+        meta[cid] = {"stream": "probe", "expect": "ab" if ready else src, "why": "duplicate to attributes: the first decides"}
     # current instants with a sub-second fraction, through the whole library path (clean): the element
     # is ready exactly when the instant, fraction included, is at or after `to`
     j = 0
@@ -1153,7 +1167,7 @@ def block_doc(rng, ds, de, cfg, unit, first_line=False):
     blank-line counts a (after) and b (before) chosen per block"""
     lines, expect = [], []
     def code(ind):
-        w = rng.choice(["foo", "bar()", "あ", "x = 1;", "é"])
+        w = rng.choice(["foo", "bar()", "あ", "x = 1;", "é", "foo", "bar()", "\x0c", "\x0b", "\u00a0", "\u3000", "\u2028"])
         return ind + w
     n_blocks = rng.randint(1, 3)
     ind = rng.choice(["", unit])
@@ -1324,7 +1338,8 @@ def unwrap_doc(rng, ds, de, cfg, unit, depth, tag_units, first_line, k_between=N
             elif c < 0.9:
                 shorter = ind[:rng.randint(0, len(ind))] if ind else ""
                 # less indented than the tag, possibly with blanks at the tag's column inside the text
-                inner.append(shorter + rng.choice(["z", "// keep this note", "x       = 2", "a\tb\tc", "é  é  é", "k v"]))
+                inner.append(shorter + rng.choice(["z", "// keep this note", "x       = 2", "a\tb\tc", "é  é  é", "k v",
+                                                   "\u3000全角で字下げ", "\u00a0// nbsp", "\u2003em", "\x0cff", "\x0bvt"]))
             else:
                 inner.append(ind + unit + "\t" + "w")
     between.extend(inner)
@@ -1458,6 +1473,7 @@ def gen_c18(rng, tier):
         tries += 1
         cfg0 = G.Cfg("\x03", "\x04", "+00:00", G.NOW, ("x",))
         dg = G.DocGen(rng, "\x01", "\x02", cfg0, safe_text=False, unit=rng.choice(["  ", "\t"]))
+        dg.multiline_open = 0.15
         s_abs = dg.document(G.ALL_KINDS, 0.3)
         ds, de = rng.choice(G.DELIMS)
         tl, rm = rng.choice(C18_TAGNAMES)
@@ -1583,6 +1599,22 @@ def gen_c19(rng, tier):
         cid = f"h{i}"
         final = G.Cfg("tl", "rm", "+00:00", nows[-1], tsets[-1])
         cases.append(G.dcase(cid, ds, de, s, final))
+        meta[cid] = {"stream": "history", "chain": [(nw, list(ts)) for nw, ts in zip(nows, tsets)], "ds": ds, "de": de}
+    # whole inline elements on the tag lines of unwrap-blocks (they lie inside the block's opening / closing
+    # part, so they go with it; before that they may be removed on their own)
+    for i in range(200 if tier == "quick" else 3000):
+        ds, de = rng.choice(G.DELIMS)
+        cfg = G.Cfg("tl", "rm", "+00:00", G.NOW, ("x",))
+        dg = G.DocGen(rng, ds, de, cfg, safe_text=True)
+        dg.strict_unwrap = True
+        dg.tagline_inline = 0.7
+        s = dg.document(["ready_tl", "pending_tl", "ready_rm", "pending_rm"], 0.6)
+        s = re.sub(r'to="[^"]*"', lambda mo: 'to="' + rng.choice(times)[0] + '"', s)
+        chain = sorted(rng.sample(range(len(times)), rng.randint(2, 4)))
+        nows = [times[k][1] + rng.choice([0, 1, 86400]) for k in chain]
+        tsets = sorted([("x",) if rng.random() < 0.5 else () for _ in chain], key=len)
+        cid = f"ti{i}"
+        cases.append(G.dcase(cid, ds, de, s, G.Cfg("tl", "rm", "+00:00", nows[-1], tsets[-1])))
         meta[cid] = {"stream": "history", "chain": [(nw, list(ts)) for nw, ts in zip(nows, tsets)], "ds": ds, "de": de}
     # idempotence only (no history), unwrap-heavy documents
     for i in range(600 if tier == "quick" else 8000):
@@ -2041,6 +2073,16 @@ def pair_check_c18(cases, meta, impl):
             if m.get("known_class"):
                 fails.append({"known": m["known_class"]})
                 continue
+            # known finding KF2: a delimiter that begins with a blank, first on a line inside an unwrapped body,
+            # loses blanks to the block dedent: the outputs differ only in the leading blanks of such lines
+            blank_delims = [d for d in (ds, de) if d[:1] in (" ", "\t")]
+            if blank_delims:
+                wl, gl = want.decode("utf-8", "replace").split("\n"), got.decode("utf-8", "replace").split("\n")
+                if len(wl) == len(gl) and all(
+                        a == b or (a.lstrip(" \t") == b.lstrip(" \t") and any(a.lstrip(" \t").startswith(d.lstrip(" \t")) for d in blank_delims))
+                        for a, b in zip(wl, gl)):
+                    fails.append({"known": "KF2 delimiter beginning with a blank: first on a line inside an unwrapped body it loses that blank to the block dedent"})
+                    continue
             fails.append({"case": by[b], "meta": m, "why": f"renamed run gives {got[:200]!r}, the rewritten output of the reference spelling is {want[:200]!r}",
                           "other_case": by[a]})
             continue
